@@ -137,6 +137,17 @@ let () =
       else begin
         let toks = List.filter (fun s -> s <> "") (String.split_on_char ' ' line) in
         (match toks with
+         | ["layer"; k; bf] when String.length k > 1 && k.[0] = 'n' ->
+             (* narrow integer types: ni:<bits>:<d> / nu:<bits>:<d> *)
+             (match String.split_on_char ':' k with
+              | [sg; _; d] -> Printf.printf "%d ok n:%d | L= S=\n" !idx (int_of_nat (narrow_layer (n_of_dec bf) (sg = "ni") (z_of_dec d)))
+              | _ -> failwith ("bad key " ^ k))
+         | ["cmp"; a; b] when String.length a > 1 && a.[0] = 'n' ->
+             (match String.split_on_char ':' a, String.split_on_char ':' b with
+              | [_; _; x], [_; _; y] ->
+                  Printf.printf "%d ok n:%s | L= S=\n" !idx
+                    (match narrow_cmp (z_of_dec x) (z_of_dec y) with Lt -> "-1" | Eq -> "0" | Gt -> "1")
+              | _ -> failwith ("bad key " ^ a))
          | ["layer"; k; bf] ->
              Printf.printf "%d ok n:%d | L= S=\n" !idx (int_of_nat (klayer (n_of_dec bf) (parse_key k)))
          | ["cmp"; a; b] ->
